@@ -1,4 +1,5 @@
 import PcfgVerif.Properties.OmenTrainCore
+import PcfgVerif.Lemmas.OmenFilesD
 /-!
 # C11 — trainer, scorer and guesser agree on every string's OMEN level
 
@@ -34,5 +35,29 @@ theorem C11_out_of_range (t : TTables) (s : Str) (h : s.length < t.ngram ∨ s.l
     t.trainerLevel s = none ∧ t.scorerLevel s = none := by
   unfold TTables.trainerLevel TTables.scorerLevel
   rcases h with h | h <;> simp [h]
+
+/-- **guesser = trainer, over the files.**  `loadTables` is the guesser's `load_rules` (its `_load_ngrams` / `_load_length`
+folds, `Model/OmenFiles.lean`) on the records the trainer writes to `IP.level`, `CP.level`, `LN.level`: the load succeeds, the
+generator starts where it starts over `toTables`, and run over the loaded tables it emits `s` at level `L` (once) iff the
+trainer assigns `L` to `s` — `toTables` was a closed form, this is the loader. -/
+theorem C11_guesser_from_files (t : TTables) (hwf : t.WF) (target : Nat) :
+    ∃ tb, t.loadTables = some tb ∧ tb.start = t.toTables.start ∧
+      ∀ s0, tb.start = some s0 →
+        ∃ N, (∀ fuel, N ≤ fuel → tb.enumFrom target fuel s0 = tb.enumFrom target N s0) ∧
+          (tb.enumFrom target N s0).Nodup ∧
+          ∀ s : Str, s ∈ tb.enumFrom target N s0 ↔ t.trainerLevel s = some target := by
+  obtain ⟨tb, hload, hsim⟩ := loadTables_sim t hwf.good
+  refine ⟨tb, hload, hsim.start, fun s0 hs0 => ?_⟩
+  have hs : t.toTables.start = some s0 := by rw [← hsim.start]; exact hs0
+  obtain ⟨N, h1, h2, h3⟩ := C11_guesser t hwf target s0 hs
+  refine ⟨N, fun fuel hf => ?_, ?_, fun s => ?_⟩
+  · rw [hsim.enumFrom, hsim.enumFrom]; exact h1 fuel hf
+  · rw [hsim.enumFrom]; exact h2
+  · rw [hsim.enumFrom]; exact h3 s
+
+/-- non-vacuity: the bigram example loads and starts -/
+example : ∃ tb s0, exTT.loadTables = some tb ∧ tb.start = some s0 := by
+  obtain ⟨tb, h1, h2, _⟩ := C11_guesser_from_files exTT exTT_wf 0
+  exact ⟨tb, _, h1, h2.trans exTT_start⟩
 
 end Pcfg.C11
